@@ -349,6 +349,17 @@ func ruleSpanSiblings(c *Ctx) {
 		if !isInt(ps.Type()) || !isInt(pe.Type()) {
 			continue
 		}
+		// (start, end) and nothing else of that kind: a helper that is also handed the number to print
+		// (span(start, end, second)) is not a formatter of a half-open range by itself
+		nInt := 0
+		for _, p := range fn.Params {
+			if isInt(p.Type()) {
+				nInt++
+			}
+		}
+		if nInt != 2 {
+			continue
+		}
 		var lin func(v ssa.Value, d int) (form, bool)
 		lin = func(v ssa.Value, d int) (form, bool) {
 			if d > 6 {
